@@ -155,6 +155,7 @@ inline void UCASTLE(const Part& part, const PosFn& f, bool blockersEverywhere) {
 inline void UKRAID(const Part& part, const PosFn& f) {
     unsigned long long c = 0;
     for (int mirror = 0; mirror < 2; mirror++)
+    for (int castlerToMove = 0; castlerToMove < 2; castlerToMove++)   // 1: the side with the rights moves (castling that gives check along its own back rank)
     for (int rights = 0; rights < 4; rights++)
     for (int ks = 0; ks < 64; ks++)
     for (int et = 1; et <= 5; et++)          // 1 = no extra piece, 2..5 = Q R B N
@@ -167,11 +168,11 @@ inline void UKRAID(const Part& part, const PosFn& f) {
         if (b.sq[ks]) continue;
         b.sq[ks] = orc::WK;
         if (et > 1) { if (b.sq[es]) continue; b.sq[es] = (signed char)orc::mk(true, et); }
-        b.castle = rights << 2; b.wtm = true;      // bit 2 = black long (a8), bit 3 = black short (h8)
+        b.castle = rights << 2; b.wtm = castlerToMove == 0;      // bit 2 = black long (a8), bit 3 = black short (h8)
         if (mirror) {
             Board m;
             for (int s = 0; s < 64; s++) { int p = b.sq[s]; if (p) m.sq[s ^ 56] = (signed char)(p > 6 ? p - 6 : p + 6); }
-            m.castle = ((b.castle & 3) << 2) | ((b.castle >> 2) & 3); m.wtm = false; b = m;
+            m.castle = ((b.castle & 3) << 2) | ((b.castle >> 2) & 3); m.wtm = !b.wtm; b = m;
         }
         if (validPlacement(b)) f(b, id);
     }
